@@ -81,7 +81,7 @@ def rule_for(kind, cell, nq, slot):
         pts[:, 0] += slot / 512.0
     w8 = [1 + ((slot + q) % 4) for q in range(nq)]
     if kind == "vertex":
-        w8 = [1 + slot % 7]
+        w8 = [1 + slot]                    # the only thing that tells two vertex rules apart (slot < 8)
     return pts, w8
 
 
@@ -324,6 +324,9 @@ def main():
         isexpr = mod["isexpr"]
         for slot, it in enumerate(items):
             make_item(it, slot)
+        keys = {(it["pts"].tobytes(), it["wts"].tobytes()) for it in items}
+        if len(keys) != len(items) or len(items) > 8:
+            raise common.MachineryError("S7: two forms of one module share a quadrature rule")
         groups = [items]
         try:
             objs, module = compile_module(items, mod["options"], isexpr, f"{job['tag']}-{mi}")
